@@ -117,8 +117,24 @@ def clause_e(ctx, P, A):
     if not loops:
         return
     head = max(loops, key=lambda h: len(loops[h]))
-    nxt = [l for l in range(len(rr.j["locals"])) if rr.local_name(l) == "next_offset"]
-    ctx.require(len(nxt) == 1, "C01e.anchor", "read_rr_records has a local next_offset", rr.loc(), "%s" % nxt)
+    # the end of the RDATA: the user variable defined as `self.offset + <u16 read from the record header>`
+    # (identified by its definition, not by its name)
+    tr0 = tracer(P, rr)
+    nxt = []
+    for (b0, i0, s0) in rr.assigns():
+        l0 = s0["p"]["l"]
+        if s0["p"]["proj"] or not rr.locals[l0].get("name") or l0 in nxt:
+            continue
+        e0 = tr0.rvalue(s0["r"], (b0, i0))
+        roots = strip(e0)
+        def _is_add(x):
+            return x[0] in ("binop", "checked") and str(x[1]).startswith("Add") or x[0] == "field" and x[1][0] in ("binop", "checked") and str(x[1][1]).startswith("Add")
+        if not roots or not all(_is_add(x) for x in roots):
+            continue
+        if any(x[0] in ("binop", "checked") and str(x[1]).startswith("Add") for x in walk(e0)) and expr_mentions_field(e0, "offset") and \
+                any(x[0] == "call" and "u16_from_be_slice" in x[1] for x in walk(e0)) and not any(x[0] == "call" and "u16_from_be_slice" not in x[1] and x[1].startswith("dns_parser::") for x in walk(e0)):
+            nxt.append(l0)
+    ctx.require(len(nxt) == 1, "C01e.anchor", "read_rr_records has one variable defined as self.offset + RDLENGTH", rr.loc(), "%s" % [rr.local_name(l) for l in nxt])
     if len(nxt) != 1:
         return
     frames = sorted(fr for (n, fr) in A.loop_states if n == rr.name)
